@@ -522,6 +522,99 @@ def chk_iod(ctx, w):
 
 
 # ---------------------------------------------------------------------------------------------
+def chk_agent_iod(ctx, w):
+    """The agent-level hand-over: a real Scenario in which a tracked satellite manoeuvres, the detector fires and the estimate
+    agent calls the IOD pipeline over the observations the run itself stored.  Whenever that attempt converges, the state it
+    hands to the filter must be the satellite's state at that epoch (radar noise of micro-radians / millimetres: 'noise-free')."""
+    from datetime import datetime, timedelta
+
+    from .. import netkit
+    from .. import scenario_kit as sk
+    from resonaate.agents.estimate_agent import EstimateAgent
+
+    net = w["net"]
+    start = datetime.fromisoformat(net["start"])
+    cfg = netkit.net_cfg(net, maneuver_detection={"name": "standard_nis", "threshold": 0.01},
+                         iod={"name": w["solver"], "minimum_observation_spacing": w["min_spacing"]})
+    tid = net["targets"][0]["id"]
+    cfg["events"].append({"scope": "agent_propagation", "scope_instance_id": tid, "start_time": sk.iso(start + timedelta(seconds=w["t_burn"])), "event_type": "impulse",
+                          "thrust_vector": w["dv"], "thrust_frame": "ntw", "planned": False})
+    log = []
+    orig = EstimateAgent._attemptInitialOrbitDetermination  # noqa: SLF001
+
+    def attempt(self, observations):
+        ok, state = orig(self, observations)
+        log.append((int(self.simulation_id), float(self.time), bool(ok), None if state is None else np.array(state, dtype=float), len(observations)))
+        return ok, state
+
+    EstimateAgent._attemptInitialOrbitDetermination = attempt  # noqa: SLF001
+    orig_handle = EstimateAgent._handleIOD  # noqa: SLF001
+    handed = []
+
+    def handle(self, observations):
+        n0 = len(log)
+        orig_handle(self, observations)
+        for rec in log[n0:]:
+            if rec[2] and rec[3] is not None:   # converged in this call: the filter now carries that state and IOD is switched off
+                handed.append((rec[0], rec[1], np.array_equal(np.asarray(self.nominal_filter.est_x, dtype=float), rec[3]), bool(self.iod_active)))
+
+    EstimateAgent._handleIOD = handle  # noqa: SLF001
+    b = None
+    truth = {}
+    err = None
+    try:
+        b = sk.build(cfg, base_seed=net["seed"])
+        for k in range(1, net["nsteps"] + 1):
+            b.app.stepForward()
+            b.app.saveDatabaseOutput()
+            truth[float(b.app.clock.time)] = {int(i): np.array(a.eci_state, dtype=float) for i, a in b.app.target_agents.items()}
+    except Exception as e:  # noqa: BLE001
+        err = f"{type(e).__name__}: {str(e)[:200]}"
+    finally:
+        EstimateAgent._attemptInitialOrbitDetermination = orig  # noqa: SLF001
+        EstimateAgent._handleIOD = orig_handle  # noqa: SLF001
+        if b is not None:
+            sk.teardown(b)
+    if err:
+        if "LinAlgError" in err or "invalid numeric entries" in err:
+            ctx.count("agent_iod_runs_skipped_filter_divergence")
+            return False
+        ctx.check(False, "agent-iod-run-raised", f"scenario with IOD enabled raised {err}", w, mon="agent_iod")
+        return False
+    ctx.count("agent_iod_attempts", len(log))
+    done = False
+    for aid, t, ok, state, nobs in log:
+        if not ok or state is None or t not in truth or aid not in truth[t]:
+            continue
+        x = truth[t][aid]
+        dr, dv = float(np.linalg.norm(state[:3] - x[:3])), float(np.linalg.norm(state[3:] - x[3:]))
+        ctx.check(dr <= 0.05 and dv <= 2e-3, "agent-iod-state", f"the state handed over by a converged orbit determination at t={t:.0f}s is {dr:.3e} km / {dv:.3e} km/s from the satellite's "
+                  f"state at that epoch (radar noise ~2e-3 km; step {net['step']} s, {nobs} observation(s) in the step)", w, mon="agent_iod")
+        done = True
+    for aid, t, same, still_active in handed:
+        ctx.check(same and not still_active, "agent-iod-hand-over", f"after a converged orbit determination at t={t:.0f}s the filter of {aid} "
+                  f"{'carries another state than the one determined' if not same else 'is still flagged as waiting for an orbit determination'}", w, mon="agent_iod")
+    if done:
+        ctx.count("agent_iod_converged_runs")
+    return done
+
+
+def gen_agent_iod(rng):
+    from .. import netkit
+
+    for _ in range(50):
+        net = netkit.gen_network(rng, policies=("MunkresDecision",), max_sensors=2, max_targets=1)
+        if net["sensors"]:
+            break
+    for sdesc in net["sensors"]:
+        sdesc.update({"kind": "adv_radar", "fov": "wide", "slew": 180.0})
+    net["targets"][0].update({"radius": rng.choice([7200.0, 7800.0, 9000.0]), "off": [rng.uniform(-2, 2), rng.uniform(-2, 2)]})
+    net.update({"step": rng.choice([30, 60]), "nsteps": 9, "init_pos_std": 1e-3, "background": False, "maneuver_detection": None, "save_filter_steps": False,
+                "reward": "SimpleSummationReward"})
+    return {"kind": "agent_iod", "net": net, "solver": rng.choice(["lambert_universal", "lambert_battin"]), "min_spacing": rng.choice([20, 60]),
+            "t_burn": net["step"] * rng.randrange(1, 3) + rng.choice([0, 1, net["step"] // 2]), "dv": [0.0, rng.choice([-1, 1]) * rng.uniform(0.02, 0.08), rng.uniform(-0.02, 0.02)]}
+
+
 def run(ctx):
     from .. import scenario_kit as sk
 
@@ -567,6 +660,14 @@ def run(ctx):
         if i % 1500 == 0:
             ctx.sample({"part": "radar", "t": w["t"], "geometry": w["geometry"]})
 
+    rng = ctx.pyrng("c20-agent-iod")
+    for i in range(ctx.scale(5, 80)):
+        if ctx.time_left() < t_end["radar"]:
+            break
+        w = gen_agent_iod(rng)
+        if chk_agent_iod(ctx, w):
+            ctx.case(("A", w["net"]["start"], w["t_burn"], w["solver"]))
+
     rng = ctx.pyrng("c20-iod")
     n = ctx.scale(800, 48_000)
     for i in range(n):
@@ -598,3 +699,5 @@ def replay(ctx, w):
         chk_radar(ctx, w)
     elif k == "iod":
         chk_iod(ctx, w)
+    elif k == "agent_iod":
+        chk_agent_iod(ctx, w)
